@@ -628,6 +628,34 @@ theorem handoff_order_gated (retries : Nat) (subs : List Submission) (n : Nat) (
   obtain ⟨r', h1, h2, h3, _⟩ := handoff_order _ n evs₁ evs₂ i (gated_log_decodable retries subs) hq r hr
   exact ⟨r', h1, h2, h3⟩
 
+/-! #### leadership changes
+
+Who leads is not part of the replica model: the committed sequence is one list whichever leader appended
+which entry (Raft's log matching and leader completeness: trusted), and a peer that leads is a peer like
+any other for `step`. A leader that is shut down between commits is the event `shutdown` on that peer, a
+leader that dies is `kill`; the new leader "continuing" is later entries of the same sequence being applied
+(`apply`) on the survivors; the old leader coming back is `restart` (its newest snapshot, then the log)
+possibly with `install` of the new leader's snapshot. All theorems above quantify over EVERY such schedule
+(`future_inv`, `caught_up_exact`, `ack_applied_everywhere`, `ack_visible_durable_partial` with arbitrary
+`evs₂`, `handoff_order` with arbitrary `evs₁`), so they cover these histories; no new event kind is needed.
+The thorough `net` suite drives them on three real nodes. One such schedule, concretely: -/
+
+/-- peer 0 leads and applies two entries, is shut down; peer 1 leads, applies them and two more, snapshots;
+    peer 0 comes back (own snapshot), gets peer 1's snapshot installed, applies the rest; peer 2 was behind
+    all along and catches up from the log: every observation satisfies every clause -/
+example : holds (gatedLog 1 [⟨.pin (pinCid 1), [.selfApplyOk]⟩, ⟨.pin (pinCid 2), [.selfApplyOk]⟩,
+                              ⟨.pin originsPin, [.selfApplyOk]⟩,
+                              ⟨.unpin (pinCid 1), [.fwdErr, .fwdOk]⟩, ⟨.pin (pinCid 3), [.selfApplyOk]⟩,
+                              ⟨.unpin (pinCid 2), [.fwdOk]⟩])
+    (modelTrace (gatedLog 1 [⟨.pin (pinCid 1), [.selfApplyOk]⟩, ⟨.pin (pinCid 2), [.selfApplyOk]⟩,
+                              ⟨.pin originsPin, [.selfApplyOk]⟩,
+                              ⟨.unpin (pinCid 1), [.fwdErr, .fwdOk]⟩, ⟨.pin (pinCid 3), [.selfApplyOk]⟩,
+                              ⟨.unpin (pinCid 2), [.fwdOk]⟩]) (initSys 3)
+      [(0, .apply), (0, .apply), (1, .apply), (0, .shutdown), (0, .offline), (1, .apply), (1, .apply), (1, .apply),
+       (1, .snapBegin), (1, .snapPersist), (1, .apply), (0, .restart), (0, .install 1), (0, .apply),
+       (2, .apply), (2, .apply), (2, .apply), (2, .apply), (2, .apply), (1, .kill), (1, .restart), (1, .apply)]) = true := by
+  decide
+
 /-- a history with a refused operation in the middle: it is not in the log, its neighbours are -/
 example : gatedLog 1 [⟨.pin (pinCid 1), [.selfApplyOk]⟩, ⟨.pin originsPin, [.selfApplyOk]⟩,
                       ⟨.unpin (pinCid undefCid), [.fwdOk]⟩, ⟨.unpin (pinCid 1), [.fwdErr, .fwdOk]⟩,
